@@ -56,14 +56,18 @@ Definition lexer_new (buffer : list N) : lstate :=
               end in
   {| l_rest := rest; l_line := 1; l_deferred := None |}.
 
-(* read_xml_header on text = buffer[bufpos+2 .. endpos-1]; returns the header attributes or a panic *)
+(* one attribute of the xml header:
+     (&attr_text[0..pos], attr_text.get(pos + 2..attr_text.len() - 1).unwrap_or(&attr_text[0..0]))
+   `get` is None when pos + 2 > len - 1 (the upper bound len - 1 never exceeds len); `len - 1` itself is a usize
+   subtraction. *)
 Definition header_attr (attr_text : list N) : res (list N * list N) :=
   match position (N.eqb 61) attr_text with
   | Some pos =>
-    (* (&attr_text[0..pos], &attr_text[pos + 2..attr_text.len() - 1]) *)
     let len := List.length attr_text in
-    if (len - 1 <? pos + 2)%nat then Pan "lexer.rs: attr_text[pos+2..len-1]"
-    else Val (firstn pos attr_text, firstn (len - 1 - (pos + 2))%nat (skipn (pos + 2)%nat attr_text))
+    if (len =? 0)%nat then Pan "lexer.rs: attr_text.len() - 1" else
+    let value := if (len - 1 <? pos + 2)%nat then []
+                 else firstn (len - 1 - (pos + 2))%nat (skipn (pos + 2)%nat attr_text) in
+    Val (firstn pos attr_text, value)
   | None => Val (attr_text, [])
   end.
 
@@ -120,7 +124,9 @@ Fixpoint lex_next (fuel : nat) (st : lstate) {struct fuel} : res lexout :=
           | 47 :: _ =>  (* '/' : read_element_end, text = buffer[bufpos+2..endpos] *)
             Val (LOk (l_line st) (EvEnd (skipn 1 inner)) {| l_rest := after; l_line := l_line st; l_deferred := None |})
           | 63 :: _ =>  (* '?' : read_xml_header *)
-            if negb (N.eqb (last inner 0) 63) then Val (LErr (l_line st) InvalidProcessingInstruction)
+            (* if endpos < self.bufpos + 3 || self.buffer[endpos - 1] != b'?'   (endpos = bufpos + findpos + 1) *)
+            if (findpos <? 2)%nat || negb (N.eqb (last inner 0) 63)
+            then Val (LErr (l_line st) InvalidProcessingInstruction)
             else
               (* text = &buffer[bufpos + 2..endpos - 1] : needs 2 <= findpos, i.e. at least "<??>" *)
               if (findpos <? 2)%nat then Pan "lexer.rs: read_xml_header buffer[bufpos+2..endpos-1]"
